@@ -63,6 +63,9 @@ type State struct {
 	cutDone  map[int]bool
 	sidePending int
 	entropyReads []*Term
+	freshRegions map[*Region]bool
+	ifaceRefined map[int]IfaceV
+	ifaceDenied  map[int]bool
 	persist  []*Term // facts that survive a cut: entry assumptions and earlier cut assertions
 	steps    int
 	trace    []string
@@ -87,6 +90,9 @@ func (st *State) clone() *State {
 		persist:  st.persist[:len(st.persist):len(st.persist)],
 		sidePending: st.sidePending,
 		entropyReads: st.entropyReads[:len(st.entropyReads):len(st.entropyReads)],
+		freshRegions: copyRegionSet(st.freshRegions),
+		ifaceRefined: copyIfaceMap(st.ifaceRefined),
+		ifaceDenied:  copyIntSet(st.ifaceDenied),
 		steps:    st.steps,
 		trace:    st.trace[:len(st.trace):len(st.trace)],
 	}
@@ -190,6 +196,7 @@ type Engine struct {
 	inlineNames   map[string]bool
 	curUses       map[string]bool
 	missingAnchors map[string]bool
+	sliceBindActive bool
 	groundDone    bool
 	groundFacts   []*Term
 	groundResults []GroundResult
@@ -489,9 +496,14 @@ func (en *Engine) globalCell(st *State, r *Region) Cell {
 	if en.initMode {
 		return zeroCell(r.typ)
 	}
-	// unknown global contents: symbolic
+	// unknown global contents (variables of other packages): symbolic; interface-valued ones
+	// such as crypto/rand.Reader are assumed non-nil
 	var facts []*Term
 	c := freshCell(r.typ, r.name, &facts)
+	if iv, ok := c.(IfaceV); ok && iv.Sym != nil {
+		facts = append(facts, Le(ConstI(1), iv.Sym))
+		en.externCalls["package variable "+r.name+" of another package is assumed to hold a non-nil value"] = true
+	}
 	for _, f := range facts {
 		st.assume(f)
 	}
@@ -510,3 +522,27 @@ func (en *Engine) globalRegion(g *ssa.Global) *Region {
 }
 
 func bigOf(v int64) *big.Int { return big.NewInt(v) }
+
+func copyRegionSet(m map[*Region]bool) map[*Region]bool {
+	n := make(map[*Region]bool, len(m))
+	for k, v := range m {
+		n[k] = v
+	}
+	return n
+}
+
+func copyIfaceMap(m map[int]IfaceV) map[int]IfaceV {
+	n := make(map[int]IfaceV, len(m))
+	for k, v := range m {
+		n[k] = v
+	}
+	return n
+}
+
+func copyIntSet(m map[int]bool) map[int]bool {
+	n := make(map[int]bool, len(m))
+	for k, v := range m {
+		n[k] = v
+	}
+	return n
+}
